@@ -26,6 +26,8 @@ FRI_CLOSE = 18264 * 1440 + 1260
 MON_OPEN = 18267 * 1440 + 870
 MON_CLOSE = 18267 * 1440 + 1260
 TUE_OPEN = 18268 * 1440 + 870
+TUE_CLOSE = 18268 * 1440 + 1260
+WED_OPEN = 18269 * 1440 + 870
 PRICES = ["3", "7.75", "12.5", "40", "100"]     # (no penny prices: positions of 10^5 shares overflow TLC's integers)
 
 
@@ -52,6 +54,7 @@ class Scenario(object):
         self.par = rng.choice(["0", "1/4", "1/2", "1/8"]) if self.kind == "dw" else rng.choice(["1/2", "1", "2", "5"])
         f = float(Fraction(self.fee))
         fee_model = ZeroFeeModel() if f == 0 else PercentFeeModel(commission_pct=f / 2, tax_pct=f / 2)
+        self.nospread = rng.random() < 0.4          # bid = ask: with zero fees a repeated rebalance must trade nothing
         self.prices = dict((a, Fraction(rng.choice(PRICES))) for a in ASSETS)
         self.handler = StubHandler({})
         self._set_quotes()
@@ -71,7 +74,7 @@ class Scenario(object):
     def _set_quotes(self):
         for a, p in self.prices.items():
             # bid != ask; the sizers read the ask
-            self.handler.set(a, float(p) - 0.25 if p > Fraction(1, 4) else float(p) / 2, float(p))
+            self.handler.set(a, float(p) if self.nospread else (float(p) - 0.25 if p > Fraction(1, 4) else float(p) / 2), float(p))
 
     def move_prices(self):
         for a in ASSETS:
@@ -79,14 +82,18 @@ class Scenario(object):
                 self.prices[a] = Fraction(self.rng.choice(PRICES))
         self._set_quotes()
 
-    def prepare(self, dt):
-        """Advance to the rebalance instant, choose universe and alpha, read the real state -> case."""
+    def prepare(self, dt, repeat=False):
+        """Advance to the rebalance instant, choose universe and alpha (or keep them: repeat), read the real
+        state -> case."""
         rng = self.rng
         self.broker.update(ts(dt))
         self.now = dt
-        self.uni = [a for a in ASSETS if rng.random() < 0.6]
+        if not repeat:
+            self.uni = [a for a in ASSETS if rng.random() < 0.6]
         k = rng.random()
-        if k < 0.1:
+        if repeat:
+            pass
+        elif k < 0.1:
             self.alpha = None                       # no alpha model at all: zero weights over the universe
         else:
             keys = [a for a in ASSETS if rng.random() < 0.55]
@@ -242,11 +249,12 @@ def run(prop, replay_file=None):
     try:
         tlc.stage_all(w)
         scs = [Scenario(i, sd) for i in sids]
-        for rnd, (dt, nxt) in enumerate([(FRI_CLOSE, MON_OPEN), (MON_CLOSE, TUE_OPEN)]):
+        # third rebalance: same universe, same alpha, no price move - holdings already on target stay untouched
+        for rnd, (dt, nxt) in enumerate([(FRI_CLOSE, MON_OPEN), (MON_CLOSE, TUE_OPEN), (TUE_CLOSE, WED_OPEN)]):
             if rnd == 1:
                 for sc in scs:
                     sc.move_prices()
-            cases = [sc.prepare(dt) for sc in scs]
+            cases = [sc.prepare(dt, repeat=(rnd == 2)) for sc in scs]
             try:
                 exps = tlc_eval(w, cases, rep, "MC_Pcm(rebalance %d)" % (rnd + 1))
             except tlc.TLCError as e:
